@@ -1,8 +1,9 @@
 (** C01G -- concrete, non-trivial instances of the hypotheses of the C01G theorems
     (CONVENTIONS 1), and executions of the kernel model. *)
 From Coq Require Import ZArith List Bool String.
-From TV Require Import spec.Storage spec.Spec model.DesugarSem model.Exhaust model.DesugarSemGraph
-  model.Kernel proofs.KernelEncode proofs.KernelSound proofs.KernelSupport proofs.KernelBucket proofs.KernelTheorems.
+From TV Require Import spec.Storage spec.Support.
+From TV Require Import spec.Spec model.DesugarSem model.Exhaust model.DesugarSemGraph
+  model.Kernel proofs.KernelEncode proofs.KernelSound proofs.KernelSupport proofs.KernelBucket proofs.KernelTheorems proofs.KernelSupportSpec.
 Import ListNotations.
 Open Scope string_scope.
 Open Scope Z_scope.
@@ -62,3 +63,19 @@ Example stored_prefixes_instance :
   /\ map (fun p => gsupp exc_matmul_add exg_matmul_add (bind_from (fun _ => 0) ["i"; "j"] p))
          [[0; 0]; [0; 1]; [1; 1]; [1; 0]] = [true; true; true; false].
 Proof. vm_compute. split; reflexivity. Qed.
+
+(** the hypotheses of [C01G_G_passes_C03_checker]: the index sizes as a Support environment *)
+Definition exs_sizes : Support.env := [("i", 2); ("j", 2); ("k", 3)].
+
+Definition exc_matmul_add' : kcfg :=
+  mkCfg [("b", exi_b); ("c", exi_c); ("d", exi_d)] (Support.lookup exs_sizes)
+        ["i"; "j"] [MDense; MCompressed] [0%nat; 1%nat] (graph_leaves exg_matmul_add).
+
+Example checker_hypotheses_instance :
+  (forall k, Support.lookup exs_sizes k = k_sizes exc_matmul_add' k)
+  /\ graph_okb exc_matmul_add' exg_matmul_add (tgt_idx exa_matmul_add) = true
+  /\ support_okb exc_matmul_add' exg_matmul_add = true
+  /\ graph_ok_spec (ordsE exc_matmul_add') Z.eqb exa_matmul_add exg_matmul_add = true
+  /\ no_phantomb (tr_assignment exa_matmul_add) (stored_set exc_matmul_add') exs_sizes
+                 (G_out exc_matmul_add' exg_matmul_add) = true.
+Proof. split; [reflexivity|]. vm_compute. repeat split. Qed.
